@@ -9,7 +9,7 @@ from pyvc.execu import Contract, LoopSpec, register
 
 from .model import (
     ASYN, BASE, ENV_MODIFIES, GK_ALL, GK_CALL, INITIAL_ID, MATCH, SYNC, W, env_effect, kw_state, locked,
-    mstate, others_kept, prefix_kept, qarr, qh, qt, rtc, wf_world, queue_items_valid, AsyncBinding, wf_registry,
+    mstate, others_kept, prefix_kept, qarr, qh, qt, rtc, wf_world, queue_items_valid, AsyncBinding, wf_registry, dicts_kept,
 )
 
 
@@ -83,6 +83,9 @@ class ProcessingLoop(Contract):
             "outer:sent-log-append-only": z3.Implies(outer, z3.And(
                 qt(s) >= t0, prefix_kept(qarr(s0), qarr(s), t0))),
             "outer:sentinel-never-escapes": z3.Implies(outer, res != W.SENT),
+            "C11|outer:empty-queue-is-a-no-op": z3.Implies(z3.And(outer, h0 == t0), z3.And(
+                s.g("ntrig") == n0, s.g("ng") == s0.g("ng"), s.g("ncb") == s0.g("ncb"), mstate(s) == mstate(s0),
+                qt(s) == t0, res == NONE)),
             "outer:result-is-first-non-sentinel-result": z3.Implies(outer, z3.Or(
                 z3.And(res == NONE, z3.ForAll([k], z3.Implies(
                     z3.And(k >= n0, k < s.g("ntrig")),
@@ -97,6 +100,8 @@ class ProcessingLoop(Contract):
             "nonrtc:returns-its-own-result": z3.Implies(nonrtc, z3.Select(s.g("trig_res"), n0) == res),
             "nonrtc:queue-balanced": z3.Implies(nonrtc, qt(s) - qh(s) == t0 - h0 - 1),
             "nonrtc:lock-untouched": z3.Implies(nonrtc, locked(s) == locked(s0)),
+            "sent-log-append-only": z3.And(qt(s) >= t0, prefix_kept(qarr(s0), qarr(s), t0, "sl2")),
+            "dicts-of-old-objects-kept": dicts_kept(s0, s),
         }
         return f
 
@@ -110,6 +115,9 @@ class ProcessingLoop(Contract):
             "outer:lock-released-on-any-exception": z3.Implies(outer, z3.Not(locked(s))),
             "outer:queue-cleared-on-Exception": z3.Implies(z3.And(outer, is_exception(x)), qh(s) == qt(s)),
             "outer:at-least-one-triggered": z3.Implies(outer, s.g("ntrig") > s0.g("ntrig")),
+            "C11|outer:empty-queue-never-raises": z3.Implies(outer, qh(s0) < qt(s0)),
+            "sent-log-append-only": z3.And(qt(s) >= qt(s0), prefix_kept(qarr(s0), qarr(s), qt(s0), "sl3")),
+            "dicts-of-old-objects-kept": dicts_kept(s0, s),
             "nonrtc:queue-balanced": z3.Implies(nonrtc, qt(s) - qh(s) == qt(s0) - qh(s0) - 1),
             "nonrtc:lock-untouched": z3.Implies(nonrtc, locked(s) == locked(s0)),
         }
@@ -135,9 +143,13 @@ class ProcessingLoop(Contract):
                     z3.ForAll([k], z3.Implies(z3.And(k >= n0, k < m),
                                               z3.Select(s.g("trig_res"), k) == W.SENT)))))),
             "queue-items-valid": queue_items_valid(s),
+            "C11|nothing-popped-yet-means-nothing-happened": z3.Implies(s.g("ntrig") == n0, z3.And(
+                qh(s) == h0, qt(s) == t0, s.g("ng") == s0.g("ng"), s.g("ncb") == s0.g("ncb"), mstate(s) == mstate(s0))),
+            "C11|something-popped-means-the-queue-was-not-empty": z3.Implies(s.g("ntrig") > n0, h0 < t0),
             "log-cursors": z3.And(s.g("ntrig") >= 0, s.g("ng") >= 0, s.g("ncb") >= 0),
             "state-map-untouched": z3.And(others_kept("idict.has", s0, s, W.CACHE), others_kept("idict.val", s0, s, W.CACHE)),
             "registry-wf": wf_registry(s),
+            "dicts-of-old-objects-kept": dicts_kept(s0, s),
         }
 
     @property
@@ -333,11 +345,13 @@ def queue_effect(s0, s):
             qh(s) == qh(s0), qt(s) >= qt(s0), prefix_kept(qarr(s0), qarr(s), qt(s0)))),
         "queue:nonrtc-balanced": z3.Implies(z3.Not(rtc(s0)), z3.And(
             qt(s) - qh(s) == qt(s0) - qh(s0), qh(s) >= qh(s0), qh(s) <= qt(s))),
+        "queue:sent-log-append-only": z3.And(qt(s) >= qt(s0), prefix_kept(qarr(s0), qarr(s), qt(s0), "sl")),
         "queue:items-valid": z3.Implies(queue_items_valid(s0), queue_items_valid(s)),
         "registry-stays-wf": z3.Implies(wf_registry(s0), wf_registry(s)),
         "log-cursors": z3.And(s.g("ntrig") >= 0, s.g("ng") >= 0, s.g("ncb") >= s0.g("ncb")),
         "state-cache-only": z3.And(others_kept("idict.has", s0, s, W.CACHE), others_kept("idict.val", s0, s, W.CACHE)),
         "model-others-kept": others_kept("Model.state", s0, s, W.MODEL),
+        "dicts-of-old-objects-kept": dicts_kept(s0, s),
     }
 
 
